@@ -428,7 +428,67 @@ def main():
     L += ["/-- (`node_weight_type` literal, expression assigned to `self.node_weights`) -/",
           "def weightCases : List (String × String) := ["
           + ", ".join(f'("{a}", "{b}")' for a, b in cases) + "]",
-          f"def weightElse : String := \"{els}\"", "",
+          f"def weightElse : String := \"{els}\"", ""]
+
+    # ---- round 3: geographical_distribution (area-weighted histogram)
+    gd = sm["geographical_distribution"]
+    gasg = {}
+    for st in ast.walk(gd):
+        if isinstance(st, ast.Assign) and len(st.targets) == 1 and isinstance(st.targets[0], ast.Name):
+            gasg[st.targets[0].id] = ast.unparse(st.value)
+    for nm in ("cos_lat", "norm", "scaling", "symbolic", "range_min", "range_max"):
+        need(nm in gasg, f"geographical_distribution: assignment to {nm}")
+    aug = sorted([st for st in ast.walk(gd) if isinstance(st, ast.AugAssign)],
+                 key=lambda st: st.lineno)
+    need(len(aug) == 2, "geographical_distribution: two augmented assignments (hist += ..., hist /= norm)")
+    loops = [st for st in ast.walk(gd) if isinstance(st, ast.For)]
+    need(len(loops) == 1 and ast.unparse(loops[0].iter) == "range(len(sequence))",
+         "geographical_distribution: one loop over range(len(sequence))")
+    L += ["/-- `geographical_distribution`: the expressions assigned to its locals, and its two "
+          "augmented assignments (statement, operator) in source order -/",
+          "def geoDistLocals : List (String × String) := ["
+          + ", ".join(f'("{k}", "{gasg[k]}")'.replace("'", "\\\"").replace('\\"int\\"', "int")
+                      for k in ("cos_lat", "norm", "range_min", "range_max", "scaling", "symbolic"))
+          + "]",
+          "def geoDistUpdates : List (String × String) := ["
+          + ", ".join(f'("{ast.unparse(a.target)}", "{type(a.op).__name__} {ast.unparse(a.value)}")'
+                      for a in aug) + "]", ""]
+
+    # ---- round 3: every distance matrix of the grid that a method edits in place is a copy
+    edits = []
+    for fn_path, cname in (("src/pyunicorn/core/geo_network.py", "GeoNetwork"),
+                           ("src/pyunicorn/core/spatial_network.py", "SpatialNetwork"),
+                           ("src/pyunicorn/core/grid.py", "Grid"),
+                           ("src/pyunicorn/core/geo_grid.py", "GeoGrid")):
+        t2 = ast.parse(open(os.path.join(REPO, fn_path)).read())
+        c2 = [n for n in t2.body if isinstance(n, ast.ClassDef) and n.name == cname][0]
+        for f in [n for n in c2.body if isinstance(n, ast.FunctionDef)]:
+            src_of = {}
+            for st in ast.walk(f):
+                if isinstance(st, ast.Assign) and len(st.targets) == 1 \
+                        and isinstance(st.targets[0], ast.Name):
+                    ex = ast.unparse(st.value)
+                    if "distance()" in ex and not isinstance(st.value, ast.BinOp):
+                        v = st.value
+                        fresh = isinstance(v, ast.Call) and (
+                            (isinstance(v.func, ast.Attribute) and v.func.attr == "copy")
+                            or ast.unparse(v.func) in ("np.array", "np.copy"))
+                        src_of.setdefault(st.targets[0].id, (ex, fresh))
+            for st in ast.walk(f):
+                tgt = None
+                if isinstance(st, ast.Assign) and isinstance(st.targets[0], ast.Subscript):
+                    tgt = st.targets[0].value
+                elif isinstance(st, ast.AugAssign):
+                    tgt = st.target.value if isinstance(st.target, ast.Subscript) else st.target
+                if isinstance(tgt, ast.Name) and tgt.id in src_of:
+                    e = (f"{cname}.{f.name}",) + src_of[tgt.id]
+                    if e not in edits:
+                        edits.append(e)
+    L += ["/-- (method, expression, is the outermost call `.copy()` / `np.array` / `np.copy`) for every "
+          "local that holds a distance matrix of the grid and is edited in place (subscript store / "
+          "augmented assignment) in that method -/",
+          "def distEdits : List (String × String × Bool) := ["
+          + ", ".join(f'("{a}", "{b}", {"true" if c else "false"})' for a, b, c in edits) + "]", "",
           "end Pyunicorn.Generated.StructC12", ""]
     with open(OUT, "w") as fh:
         fh.write("\n".join(L))
